@@ -524,7 +524,7 @@ class NonRigidTransform(SpatialTransform):
         u = getattr(self, "u", None)
         if u is None:
             u = getattr(self.update(), "u", None)
-        if u is None or "u" not in {name for name, _, in self.named_buffers()}:
+        if u is None or "u" not in {name for name, _ in self.named_buffers(remove_duplicate=False)}:
             raise AssertionError(
                 f"{type(self).__name__}.update() required to register"
                 " displacement vector field tensor as buffer named 'u'."
